@@ -423,6 +423,54 @@ def history_rule(ctx):
     else:
         r.fail(fs.qualname, "commit", fs.file, fs.lineno, "PhaseField.Save_Iter", "Save_Iter does not commit the driving energy to the history field")
 
+    # damage-based irreversibility: the bound is applied to the damage the simulation keeps (the one Save_Iter records)
+    from ..flow import Locals, must_pass
+
+    fsolve = ps.methods["Solve"]
+    r.instance(fn=fsolve.qualname)
+    loc_s = Locals(fsolve.node)
+    branch = None
+    for n in ast.walk(fsolve.node):
+        if isinstance(n, ast.If) and "HistoryDamage" in norm_text(n.test):
+            branch = n
+    bad = None
+    if branch is None:
+        bad = "Solve has no branch for the HistoryDamage solver"
+    else:
+        bounded = None
+        for i, st in enumerate(branch.body):
+            if isinstance(st, ast.Assign) and isinstance(st.targets[0], ast.Name) and isinstance(st.value, ast.Call) and (dotted(st.value.func) or "") in ("np.max", "np.maximum", "np.amax", "np.fmax"):
+                bounded = (i, st.targets[0].id)
+        if bounded is None:
+            bad = "the HistoryDamage branch does not take the maximum of the old and the new damage"
+        else:
+            i, name = bounded
+
+            def stores(st):
+                return (isinstance(st, ast.Expr) and isinstance(st.value, ast.Call) and isinstance(st.value.func, ast.Attribute) and st.value.func.attr == "_Set_solutions"
+                        and len(st.value.args) >= 2 and "damage" in norm_text(loc_s.resolve(st.value.args[0])) and isinstance(st.value.args[1], ast.Name) and st.value.args[1].id == name)
+
+            if not must_pass(branch.body[i + 1:], stores):
+                bad = f"the HistoryDamage branch bounds `{name}` by the old damage and returns it, but never stores it (`self._Set_solutions(<damage>, {name})`): self.damage - what Save_Iter records and the next step starts from - is still the unbounded solver output, so the saved damage decreases on unloading"
+    if bad:
+        r.fail(fsolve.qualname, "damage-bound-not-stored", fsolve.file, (branch or fsolve.node).lineno, "PhaseField.Solve", bad)
+    else:
+        r.ok("Solve/HistoryDamage: d = max(old, new) and the bounded field is stored as the simulation's damage")
+    flb = ps.methods["Get_lb_ub"]
+    r.instance(fn=flb.qualname)
+    okb = False
+    for n in ast.walk(flb.node):
+        if isinstance(n, ast.If) and "BoundConstrain" in norm_text(n.test):
+            for st in n.body:
+                if isinstance(st, ast.Assign) and norm_text(st.value) == "self.damage":
+                    lbname = norm_text(st.targets[0])
+                    rets = [x for x in ast.walk(flb.node) if isinstance(x, ast.Return) and isinstance(x.value, ast.Tuple) and norm_text(x.value.elts[0]) == lbname]
+                    okb = bool(rets)
+    if okb:
+        r.ok("Get_lb_ub/BoundConstrain: the lower bound of the damage problem is the current damage")
+    else:
+        r.fail(flb.qualname, "lower-bound", flb.file, flb.lineno, "PhaseField.Get_lb_ub", "under BoundConstrain the lower bound handed to the bounded solver is not the current damage field")
+
     # the running maximum is handed to the model functions by reference: none of them may write it in place
     from ..flow import CallGraph, alias_closure, is_view_expr, param_inplace
 
